@@ -938,7 +938,7 @@ pub fn build(tier: &str) -> SimCheck {
         scenarios,
         oracle: Box::new(oracle),
         bound: 0,
-        limits: Limits { max_wall_s: if thorough { 1500.0 } else { 50.0 }, ..Default::default() },
+        limits: Limits { max_wall_s: if thorough { 1500.0 } else { 150.0 }, ..Default::default() },
         rule: "raw: reply stream catalogue (row sizes around the 8196-byte thresholds, empty/multi-statement, Notice/ParameterStatus, mid-stream error, COPY out/in/fail with chunk sizes around 8196, every kind of message (notice, error, parameter status, wide row description) carrying the buffer across the threshold before / between / after rows, COPY in with every sequence of <= 3 (thorough 4) client chunks over 6 sizes below/at/above the threshold, SELECT+COPY in one Query, portal suspension, in-transaction status) x every single cut of the server stream at message boundaries +-0..5 bytes and at the thresholds x client-request cuts; ref: 13 request shapes (simple, extended, named, pipelined, bare Sync then batch, Sync Sync, Describe, Close+re-Parse, Flush, big, COPY, error in batch) x caching on/off x gating, compared with the direct-connection reference; gen-session: every generated extended-protocol batch program of C08 (<= 2, thorough 3 items) in session mode without statement caching, replies and server-received messages compared with the client's, and once more with statement caching on (every Bind / Execute / portal Describe / portal Close must reach the server); distinct = distinct histories".into(),
         assumptions: vec![
             "TLS framing not exercised (generic Client<S,T> relay code is the same)".into(),
